@@ -47,6 +47,8 @@ pub struct CaseReport {
     /// not judged, with the reason (outside the property / harness)
     pub discarded: Option<String>,
     pub harness_error: Option<String>,
+    /// the wall-clock watchdog fired: the run never came back
+    pub hung: bool,
     pub outcome_class: String,
     pub shape_hash: u64,
     pub inter_hash: u64,
